@@ -410,11 +410,12 @@ func (_this *arrayEncoderEngine) beginArrayInt64(onComplete func()) {
 	}
 }
 
+// Float arrays have no binary or octal text form: every non-decimal format is written as hexadecimal floats.
 func (_this *arrayEncoderEngine) beginArrayFloat16(onComplete func()) {
 	const elemWidth = 2
 	_this.setElementByteWidth(elemWidth)
 	_this.stream.WriteStringNotLF(arrayHeadersFloat16[_this.config.Encoder.CTE.DefaultNumericFormats.Array.Float16])
-	if _this.config.Encoder.CTE.DefaultNumericFormats.Array.Float16 == configuration.CTEEncodingFormatHexadecimal {
+	if _this.config.Encoder.CTE.DefaultNumericFormats.Array.Float16 >= configuration.CTEEncodingFormatBinary {
 		_this.addElementsFunc = func(data []byte) {
 			for len(data) > 0 {
 				_this.writeSpaceIfNotFirstElement()
@@ -441,7 +442,7 @@ func (_this *arrayEncoderEngine) beginArrayFloat32(onComplete func()) {
 	const elemWidth = 4
 	_this.setElementByteWidth(elemWidth)
 	_this.stream.WriteStringNotLF(arrayHeadersFloat32[_this.config.Encoder.CTE.DefaultNumericFormats.Array.Float32])
-	if _this.config.Encoder.CTE.DefaultNumericFormats.Array.Float32 == configuration.CTEEncodingFormatHexadecimal {
+	if _this.config.Encoder.CTE.DefaultNumericFormats.Array.Float32 >= configuration.CTEEncodingFormatBinary {
 		_this.addElementsFunc = func(data []byte) {
 			for len(data) > 0 {
 				_this.writeSpaceIfNotFirstElement()
@@ -468,7 +469,7 @@ func (_this *arrayEncoderEngine) beginArrayFloat64(onComplete func()) {
 	const elemWidth = 8
 	_this.setElementByteWidth(elemWidth)
 	_this.stream.WriteStringNotLF(arrayHeadersFloat64[_this.config.Encoder.CTE.DefaultNumericFormats.Array.Float64])
-	if _this.config.Encoder.CTE.DefaultNumericFormats.Array.Float64 == configuration.CTEEncodingFormatHexadecimal {
+	if _this.config.Encoder.CTE.DefaultNumericFormats.Array.Float64 >= configuration.CTEEncodingFormatBinary {
 		_this.addElementsFunc = func(data []byte) {
 			for len(data) > 0 {
 				_this.writeSpaceIfNotFirstElement()
@@ -671,30 +672,30 @@ var arrayHeadersInt64 = []string{
 var arrayHeadersFloat16 = []string{
 	configuration.CTEEncodingFormatDecimal:               "@f16[",
 	configuration.CTEEncodingFormatFlagZeroFilled:        "@f16[",
-	configuration.CTEEncodingFormatBinary:                "@f16b[",
-	configuration.CTEEncodingFormatBinaryZeroFilled:      "@f16b[",
-	configuration.CTEEncodingFormatOctal:                 "@f16o[",
-	configuration.CTEEncodingFormatOctalZeroFilled:       "@f16o[",
+	configuration.CTEEncodingFormatBinary:                "@f16x[",
+	configuration.CTEEncodingFormatBinaryZeroFilled:      "@f16x[",
+	configuration.CTEEncodingFormatOctal:                 "@f16x[",
+	configuration.CTEEncodingFormatOctalZeroFilled:       "@f16x[",
 	configuration.CTEEncodingFormatHexadecimal:           "@f16x[",
 	configuration.CTEEncodingFormatHexadecimalZeroFilled: "@f16x[",
 }
 var arrayHeadersFloat32 = []string{
 	configuration.CTEEncodingFormatDecimal:               "@f32[",
 	configuration.CTEEncodingFormatFlagZeroFilled:        "@f32[",
-	configuration.CTEEncodingFormatBinary:                "@f32b[",
-	configuration.CTEEncodingFormatBinaryZeroFilled:      "@f32b[",
-	configuration.CTEEncodingFormatOctal:                 "@f32o[",
-	configuration.CTEEncodingFormatOctalZeroFilled:       "@f32o[",
+	configuration.CTEEncodingFormatBinary:                "@f32x[",
+	configuration.CTEEncodingFormatBinaryZeroFilled:      "@f32x[",
+	configuration.CTEEncodingFormatOctal:                 "@f32x[",
+	configuration.CTEEncodingFormatOctalZeroFilled:       "@f32x[",
 	configuration.CTEEncodingFormatHexadecimal:           "@f32x[",
 	configuration.CTEEncodingFormatHexadecimalZeroFilled: "@f32x[",
 }
 var arrayHeadersFloat64 = []string{
 	configuration.CTEEncodingFormatDecimal:               "@f64[",
 	configuration.CTEEncodingFormatFlagZeroFilled:        "@f64[",
-	configuration.CTEEncodingFormatBinary:                "@f64b[",
-	configuration.CTEEncodingFormatBinaryZeroFilled:      "@f64b[",
-	configuration.CTEEncodingFormatOctal:                 "@f64o[",
-	configuration.CTEEncodingFormatOctalZeroFilled:       "@f64o[",
+	configuration.CTEEncodingFormatBinary:                "@f64x[",
+	configuration.CTEEncodingFormatBinaryZeroFilled:      "@f64x[",
+	configuration.CTEEncodingFormatOctal:                 "@f64x[",
+	configuration.CTEEncodingFormatOctalZeroFilled:       "@f64x[",
 	configuration.CTEEncodingFormatHexadecimal:           "@f64x[",
 	configuration.CTEEncodingFormatHexadecimalZeroFilled: "@f64x[",
 }
